@@ -6,7 +6,7 @@ use crate::mach::*;
 use crate::orch::CheckCfg;
 use crate::prng::Rng;
 use crate::run::*;
-use crate::wgen::{self, GenCfg, LIT_POOL};
+use crate::wgen::{self, GenCfg, LIT_POOL, halfword_pattern};
 use std::collections::BTreeMap;
 use std::rc::Rc;
 
@@ -37,9 +37,10 @@ fn min_args(bs: &[Backend]) -> usize {
 
 fn arg_values(rng: &mut Rng, n: usize) -> Vec<i64> {
     (0..n)
-        .map(|_| match rng.below(4) {
+        .map(|_| match rng.below(5) {
             0 => *rng.pick(&LIT_POOL),
             1 => rng.next() as i64,
+            2 => halfword_pattern(rng),
             _ => rng.range(-10, 60),
         })
         .collect()
@@ -83,6 +84,7 @@ pub fn make(wl: &str, rng: &mut Rng, cfg: &CheckCfg, k: u64) -> Option<Scenario>
             let n = 1 + rng.below(64) as i64;
             Some(Scenario { kind: "loop".into(), prog, args: vec![n], meta: vec![] })
         }
+        "loop2" => Some(make_loop2(rng, &cfg.backends)),
         "abi" => Some(make_abi(rng, &cfg.backends)),
         "subst" => Some(make_subst(rng, &cfg.backends)),
         _ => None,
@@ -104,7 +106,7 @@ pub fn corpus_len() -> u64 {
     16
 }
 
-fn three_way(r: &mut ScenarioResult, sc: &Scenario) {
+pub fn three_way(r: &mut ScenarioResult, sc: &Scenario) {
     if let Some(Some(rv)) = r.results.get(&Backend::Rv) {
         for b in [Backend::X86, Backend::A64] {
             if let Some(Some(o)) = r.results.get(&b) {
@@ -127,7 +129,7 @@ fn three_way(r: &mut ScenarioResult, sc: &Scenario) {
 pub fn run(wl: &str, sc: &Scenario, rcfg: &RunCfg, rng: &mut Rng, keys: u64, stats: &mut Stats) -> ScenarioResult {
     match wl {
         "subst" => run_subst(sc, rcfg, rng, keys, stats, None),
-        "loop" => run_loop(sc, rcfg, rng, keys, stats),
+        "loop" | "loop2" => run_loop(sc, rcfg, rng, keys, stats),
         _ => {
             let mut r = run_scenario(sc, rcfg, rng, keys, stats, None);
             three_way(&mut r, sc);
@@ -226,7 +228,12 @@ fn build(kit: &mut Kit, rng: &mut Rng, ctx: &mut Vec<Bind>, pre: &mut Vec<Pre>, 
     match shape {
         Shape::Int => {
             let v = kit.fresh("i");
-            pre.push(Pre::Lit { lit: if rng.pct(30) { *rng.pick(&LIT_POOL) } else { rng.range(-50, 500) }, var: v.clone() });
+            let lit = match rng.below(10) {
+                0 | 1 => *rng.pick(&LIT_POOL),
+                2 | 3 => halfword_pattern(rng),
+                _ => rng.range(-50, 500),
+            };
+            pre.push(Pre::Lit { lit, var: v.clone() });
             ctx.push(ext(v.clone()));
             v
         }
@@ -663,4 +670,127 @@ fn run_scenario_peaks(sc: &Scenario, cfg: &RunCfg, rng: &mut Rng, keys: u64, sta
         peaks.entry(*b).or_default().push((n, pk.0, pk.1));
     }
     r
+}
+
+// ---------------------------------------------------------------------------------------------
+// W-loop2 (C10): a counted loop whose body builds and disposes structures in seeded ways
+
+fn loop2_body(kit: &mut Kit, rng: &mut Rng, ctx: Vec<Bind>, mut pre: Vec<Pre>, episodes: usize, params: &[Bind], counter: &Name) -> Rc<Stmt> {
+    if episodes == 0 {
+        // i' = i - 1; rearrange to the parameter list; call loop
+        let one = kit.fresh("one");
+        pre.push(Pre::Lit { lit: 1, var: one.clone() });
+        let ni = kit.fresh("ni");
+        let mut map: Vec<(Bind, Name)> = Vec::new();
+        let mut args: Vec<Bind> = Vec::new();
+        let stmt_op = (counter.clone(), one.clone(), ni.clone());
+        for (k, p) in params.iter().enumerate() {
+            let src = if k == 0 { ni.clone() } else { ctx[k].v.clone() };
+            let nb = Bind { v: kit.fresh("c"), chi: p.chi, ty: p.ty.clone() };
+            map.push((nb.clone(), src));
+            args.push(nb);
+        }
+        let call = Stmt::Call { label: Name::new("loop", 1), args };
+        let sub = Stmt::Subst { map, next: Rc::new(call) };
+        let op = Stmt::Op { fst: stmt_op.0, op: BinOp::Sub, snd: stmt_op.1, var: stmt_op.2, next: Rc::new(sub) };
+        return fold(pre, op);
+    }
+    let mut ctx = ctx;
+    let base_len = ctx.len();
+    // build one structure at the end of the context
+    let shape = match rng.below(8) {
+        0 => Shape::Box(rng.below(9)),
+        1 => Shape::Box(4 + rng.below(5)),
+        2 => Shape::Opt(true),
+        3 => Shape::Clo,
+        4 => Shape::Box(1 + rng.below(3)),
+        5 => Shape::Opt(rng.pct(50)),
+        _ => Shape::Box(rng.below(9)),
+    };
+    let v = build(kit, rng, &mut ctx, &mut pre, &shape);
+    let b = ctx.last().unwrap().clone();
+    debug_assert_eq!(ctx.len(), base_len + 1);
+    // optionally share it (two references), then dispose
+    let keep: Vec<(Bind, Name)> = ctx[..base_len].iter().map(|b| (b.clone(), b.v.clone())).collect();
+    let mode = rng.below(6);
+    match (mode, b.chi) {
+        (0, _) | (_, Chi::C) => {
+            // drop: the substitution omits it (deferred free list)
+            if rng.pct(30) {
+                // share first, then drop both copies in one substitution
+                let mut m = keep.clone();
+                let d1 = Bind { v: kit.fresh("d"), chi: b.chi, ty: b.ty.clone() };
+                let d2 = Bind { v: kit.fresh("d"), chi: b.chi, ty: b.ty.clone() };
+                m.push((d1, v.clone()));
+                m.push((d2, v.clone()));
+                pre.push(Pre::Subst(m));
+            }
+            pre.push(Pre::Subst(keep));
+            ctx.truncate(base_len);
+            loop2_body(kit, rng, ctx, pre, episodes - 1, params, counter)
+        }
+        (1, Chi::P) => {
+            // share, consume one copy (non-destructive load), drop the other
+            let mut m = keep.clone();
+            let d1 = Bind { v: kit.fresh("d"), chi: b.chi, ty: b.ty.clone() };
+            let d2 = Bind { v: kit.fresh("d"), chi: b.chi, ty: b.ty.clone() };
+            m.push((d1.clone(), v.clone()));
+            m.push((d2.clone(), v.clone()));
+            pre.push(Pre::Subst(m));
+            let mut c2: Vec<Bind> = ctx[..base_len].to_vec();
+            c2.push(d1);
+            switch_consume(kit, rng, c2, pre, d2, episodes, params, counter, true)
+        }
+        _ => {
+            // consume while unique (destructive load: blocks go to the linear free list)
+            let c2: Vec<Bind> = ctx[..base_len].to_vec();
+            switch_consume(kit, rng, c2, pre, b, episodes, params, counter, false)
+        }
+    }
+}
+
+#[allow(clippy::too_many_arguments)]
+fn switch_consume(kit: &mut Kit, rng: &mut Rng, rest: Vec<Bind>, pre: Vec<Pre>, obj: Bind, episodes: usize, params: &[Bind], counter: &Name, drop_extra: bool) -> Rc<Stmt> {
+    let types = kit_types();
+    let decl = types.iter().find(|t| Ty::D(t.name.clone()) == obj.ty).expect("kit type").clone();
+    let base_len = params.len();
+    let mut clauses = Vec::new();
+    for x in &decl.xtors {
+        let binders: Vec<Bind> = x.args.iter().map(|a| Bind { v: kit.fresh("g"), chi: a.chi, ty: a.ty.clone() }).collect();
+        // inside the clause: drop the loaded fields (and the extra shared copy), keep the loop variables
+        let keep: Vec<(Bind, Name)> = rest[..base_len].iter().map(|b| (b.clone(), b.v.clone())).collect();
+        let _ = drop_extra;
+        let cpre = vec![Pre::Subst(keep)];
+        let cctx: Vec<Bind> = rest[..base_len].to_vec();
+        let body = loop2_body(kit, rng, cctx, cpre, episodes - 1, params, counter);
+        clauses.push(Clause { xtor: x.name.clone(), ctx: binders, body });
+    }
+    fold(pre, Stmt::Switch { var: obj.v.clone(), ty: obj.ty.clone(), clauses })
+}
+
+pub fn make_loop2(rng: &mut Rng, backends: &[Backend]) -> Scenario {
+    let mut kit = Kit { next: 5000 };
+    let rv = backends.contains(&Backend::Rv);
+    // p padding variables to the left slide the structures across the register/spill boundary
+    let p = if rv { rng.below(4) } else { [0, 1, 3, 5, 6, 7, 9, 12, 13, 15][rng.below(10)] };
+    let arg = ext(kit.fresh("n"));
+    let mut pre = Vec::new();
+    let mut ctx = vec![arg.clone()];
+    for _ in 0..p {
+        build(&mut kit, rng, &mut ctx, &mut pre, &Shape::Int);
+    }
+    let params: Vec<Bind> = ctx.iter().map(|b| Bind { v: kit.fresh("q"), chi: b.chi, ty: b.ty.clone() }).collect();
+    let main_body = fold(pre, Stmt::Call { label: Name::new("loop", 1), args: ctx.clone() });
+    let counter = params[0].v.clone();
+    let episodes = 1 + rng.below(if rv { 2 } else { 3 });
+    let go = loop2_body(&mut kit, rng, params.clone(), Vec::new(), episodes, &params, &counter);
+    let done = Rc::new(Stmt::Exit { var: counter.clone() });
+    let loop_body = Rc::new(Stmt::If { sort: IfSort::Le, fst: counter.clone(), snd: None, thenc: done, elsec: go });
+    let prog = Prog {
+        types: kit_types(),
+        defs: vec![Def { name: Name::new("main", 0), params: vec![arg], body: main_body }, Def { name: Name::new("loop", 1), params, body: loop_body }],
+        max_id: kit.next + 1,
+    };
+    let n = 2 + rng.below(40) as i64;
+    Scenario { kind: "loop".into(), prog, args: vec![n], meta: vec![] }
 }
